@@ -619,3 +619,30 @@ TEXT = {
   "technique": "Lean 4 proof (induction over the batch) + AST facts + differential correspondence on real nodes + model-free monitors",
  },
 }
+
+
+# ---- round 5 additions (appended; text joins what the entries above say) ------------------------------------------------------
+_TR = (" TRANSLATED CODE (Props/Translated.lean, round 5): the pure integer functions this property rests on are no longer only "
+       "hand-modelled: a Go->Lean translator (harness/cmd/zvh/f_translate.go, a strict go/ast subset: fixed-width integers with "
+       "wrap-around, big.Int through a fixed method set, if/return, let-rebinding, explicit panics) regenerates their bodies into "
+       "Gen/Translated.lean on every run, and for every translated definition a theorem proves it equal to the hand model the "
+       "property theorems are about (or pins it at machine level where marked _pinned / _partial); `all_translated` fails the build "
+       "when a function leaves the subset; the `translated` stream runs the real functions on boundary and random inputs against both "
+       "the translated definition and the hand model.")
+for _k, _what in (("C18", "GetRange, the page requests of GetAccountBlocksByPage / GetMomentumsByPage, the reward-history first-epoch expression"),
+                  ("C14", "higherPriority (wrapping uint64 products, hash tie-break)"),
+                  ("C12", "DifficultyToPlasma, GetDifficultyForPlasma, FussedAmountToPlasma, getTargetByDifficulty, GetThresholdByDifficulty"),
+                  ("C05", "ticker.ToTick / ToTime offsets / TickMultiplier tail"),
+                  ("C15", "the MaxHashFetch caps, Number+Amount-1, the available clamp and the beyond-frontier exit of handleMsg"),
+                  ("C11", "MinInt64 / MaxInt64, getWeightedStakeAmount, getWeightedStake, getWeightedSentinel")):
+    TEXT[_k]["text"] += _TR + " Translated here: " + _what + "."
+    TEXT[_k]["technique"] += " + Go->Lean translation of the integer core with refinement theorems"
+TEXT["C11"]["text"] += (" END-TO-END (Props/C11Epoch.lean, Model/RewardEpoch.lean, round 5): one composed machine per contract - the cursor loop "
+    "calling a line-by-line model of compute...ForEpoch (stake, sentinel, pillar with producer / delegate split, liquidity with both "
+    "tables) on the storage the previous epoch left - with theorems over arbitrary runs: per epoch the sum credited over all accounts "
+    "is within the contract's emission (stake / sentinel / pillar / liquidity_epoch_within_emission), over any run the total credited "
+    "is within the emission summed over exactly the rewarded epochs, which are cursor0+1 .. cursor without gap or repeat "
+    "(total_credited_le_total_emission), minted <= credited with equality after a collect (total_minted_le_total_emission), credits "
+    "independent of the order of stake entries and backers; consensus premises (produced <= expected, weights within the total) are "
+    "named hypotheses, discharged from C11Points where the statistics are a compound point; every real epoch update's complete input "
+    "and credits are replayed through the composed model (RE-* lines).")
